@@ -35,7 +35,7 @@ class SleepyObserver(W.Worker):
         if self.vf_rng.random() < self.vf_p:
             time.sleep(self.vf_rng.choice((0, 0.0003, 0.003)))
         _id, region = message
-        self.vf_log.append((_id, region.meta.start, region.meta.end, bytes(region)))
+        self.vf_log.append((_id, region.start, region.end, bytes(region)))
 
 
 def run_real(case, data, rng, watchdog_s=60.0):
@@ -45,7 +45,8 @@ def run_real(case, data, rng, watchdog_s=60.0):
     sys.setswitchinterval(1e-6)
     try:
         r = random.Random(rng.getrandbits(32))
-        reader = SleepyReader(data, block_dur=case["w"], **AC.audio_kwargs(case)).vf_init(r, rng.choice((0.0, 0.3, 1.0)))
+        rkw = {"hop_dur": case["hop"] / case["rate"]} if case.get("hop") else {}
+        reader = SleepyReader(data, block_dur=case["w"], **rkw, **AC.audio_kwargs(case)).vf_init(r, rng.choice((0.0, 0.3, 1.0)))
         obs = [SleepyObserver(random.Random(rng.getrandbits(32)), rng.choice((0.0, 0.5, 1.0)), rng.choice((0.0005, 0.005, 0.2)))
                for _ in case["observers"]]
         kw = {k: v for k, v in AC.split_kwargs(case).items() if k != "analysis_window"}
@@ -79,7 +80,8 @@ def run_real_saver(case, data, rng, tmpdir, watchdog_s=60.0):
     sys.setswitchinterval(1e-6)
     try:
         r = random.Random(rng.getrandbits(32))
-        reader = SleepyReader(data, block_dur=case["w"], **AC.audio_kwargs(case)).vf_init(r, rng.choice((0.0, 0.3, 1.0)))
+        rkw = {"hop_dur": case["hop"] / case["rate"]} if case.get("hop") else {}
+        reader = SleepyReader(data, block_dur=case["w"], **rkw, **AC.audio_kwargs(case)).vf_init(r, rng.choice((0.0, 0.3, 1.0)))
         path = os.path.join(tmpdir, "stress_stream.wav")
         saver = W.StreamSaverWorker(reader, filename=path, cache_size_sec=case["saver"]["cache_size_sec"], timeout=rng.choice((0.0005, 0.005, 0.2)))
         saver.start()
